@@ -24,7 +24,10 @@ def run(res, replay=None):
             nd = rng.choice([2, 2, 3])
             if i % 4 == 3:
                 s = gen.rand_spec(rng, n_total=rng.choice([2, 3]), n_demes=2, n_epochs=1, loci=2, end_time='always')
-                cases.append({'spec': s})
+                lf = (i % 8 == 3)
+                if lf and not s.get('recombination_rate'):
+                    s['recombination_rate'] = 1.0       # the two loci must be able to coalesce at different times
+                cases.append({'spec': s, 'loci_first': lf})
                 continue
             s = gen.rand_spec(rng, n_total=rng.choice([2, 3, 4]), n_demes=nd, n_epochs=rng.choice([1, 2]), end_time='always')
             unreachable = []
